@@ -2,6 +2,8 @@ import DirectVerif.Gen.C07
 import DirectVerif.Model.MaskBudget
 import DirectVerif.Model.C07Magic
 import DirectVerif.Model.C07Bisect
+import DirectVerif.Model.C07State
+import DirectVerif.Lemmas.C07State
 import DirectVerif.Props.C07
 import Mathlib.Tactic.Ring
 import Mathlib.Data.Rat.Floor
@@ -128,5 +130,17 @@ theorem code_bisection_iv_post_returned (mid : ℚ → ℚ → ℚ) (R tol : ℚ
     (a : ℚ) (n : Nat) (s : ℚ) (hr : poissonIv mid R tol accs lo hi (postOfTable poissonPost effect) = .returned a n s) :
     |a - R| < tol :=
   DirectVerif.C07.bisection_iv_post_returned mid R tol accs lo hi poissonPost poisson_post_ok effect a n s hr
+
+/-! ### nothing is carried from one call to the next -/
+
+/-- no memoising decorator, no mutable default argument, no module- or class-level container in `subsample.py` -/
+theorem no_process_state : noProcessState moduleCaches mutableDefaults moduleState = true := by decide
+
+/-- every in-place kernel call gets an array bound to a fresh object in the same call -/
+theorem kernel_arrays_ok : kernelArraysOk kernelArrays = true := by decide
+
+/-- hence, for the code as it is, no kernel call site shares its array with another call -/
+theorem code_kernel_arrays_not_shared : ∀ r ∈ kernelArrays, rowShared r = false :=
+  DirectVerif.C07.kernel_arrays_not_shared kernelArrays kernel_arrays_ok
 
 end DirectVerif.Bridge.C07
